@@ -294,7 +294,7 @@ def _c17_solves(prop, tier, seed, wd):
     exe = vlib.build_harness("release")
     n = 100 if tier == "quick" else 1500
     allc = os.path.join(wd, "cpp.all")
-    total = vlib.gen_cases(exe, allc, "solve:base,locks,excl,hints,soft,midconflict,cyclic,unionoverlap", n, seed, "cppx",
+    total = vlib.gen_cases(exe, allc, "solve:base,locks,excl,hints,soft,midconflict,cyclic,unionoverlap,hintexcl,softlone,unionempty", n, seed, "cppx",
                            whitebox=False)
     shards = vlib.split_file(allc, 8 if tier == "quick" else 16, wd, "cpp")
     viol = []
